@@ -246,6 +246,13 @@ def run_case(case):
                 b4[1] = max(b4[1], b4[0] + 1e-3 * fny)
                 b4[2] = max(b4[2], b4[1])
                 b4[3] = max(b4[3], b4[2] + 1e-3 * fny)
+                if rng.random() < 0.5:
+                    # the two corner pairs drawn independently: transition bands that touch, overlap, coincide or are crossed - the band-pass is still the product
+                    lo2, hi2 = np.sort(rng.uniform(0, fny, 2)), np.sort(rng.uniform(0, fny, 2))
+                    lo2[1], hi2[1] = max(lo2[1], lo2[0] + 1e-3 * fny), max(hi2[1], hi2[0] + 1e-3 * fny)
+                    if rng.random() < 0.2:
+                        hi2 = lo2.copy()
+                    b4 = np.r_[lo2, hi2]
                 key = "filters:3d-non-last-axis" if (nd == 3 and a == 0) else ("filters:negative-axis" if (ax or 0) < 0 else "filters")
                 try:
                     lo = F.lp(x, si, b, axis=ax)
@@ -255,7 +262,7 @@ def run_case(case):
                     bp = F.bp(x, si, b4, axis=ax)
                     comp = F.hp(F.lp(x, si, b4[2:4], axis=ax), si, b4[0:2], axis=ax)
                     res.check(M.relerr(bp, comp) <= 1e-9 or np.max(np.abs(bp - comp)) <= 1e-9 * np.max(np.abs(x)),
-                              key + ":bp", f"bp != hp(lp) n={n} nd={nd} axis={ax}")
+                              key + ":bp" + ("" if b4[1] <= b4[2] else ":overlapping-corners"), f"bp != hp(lp) n={n} nd={nd} axis={ax} corners={np.round(b4, 6).tolist()}")
                     # against the definition: multiply the spectrum by the cosine-tapered response
                     f = np.abs(np.fft.fftfreq(n, si))
                     resp = np.where(f <= b[0], 0.0, np.where(f >= b[1], 1.0, (1 - np.cos((f - b[0]) / (b[1] - b[0]) * np.pi)) / 2))
